@@ -27,7 +27,7 @@ ASSUMPTIONS = [
 ]
 
 KINDS = ["tanh", "cube", "lin", "bilin", "twoout", "sum", "einsum_mul", "math_a", "math_b", "concat", "fill2",
-         "filterconv", "tanh", "lin", "bilin", "sumlin", "sumlin"]
+         "filterconv", "tanh", "lin", "bilin", "sumlin", "sumlin", "sum3"]
 
 
 def budget(tier):
@@ -154,6 +154,19 @@ def mods():
             g = self.A.T @ dy
             return g, g
 
+    class C02Sum3Lin(pym.Module):
+        """y = A (x1 + x2 + x3); returns ONE array object as the adjoint of all three inputs (legitimate: pyMOTO's own
+        test_identical_sensitivity does it). Used with the same Signal on the first two inputs and another one third."""
+        def _prepare(self, A):
+            self.A = A
+
+        def _response(self, x1, x2, x3):
+            return self.A @ (x1 + x2 + x3)
+
+        def _sensitivity(self, dy):
+            g = self.A.T @ dy
+            return g, g, g
+
     class C02Flat(pym.Module):
         """y = x.ravel() for an input of any shape (used to consume 2-D slices)"""
         def _response(self, x):
@@ -165,6 +178,7 @@ def mods():
 
     _MODS["flat"] = C02Flat
     _MODS["sumlin"] = C02SumLin
+    _MODS["sum3"] = C02Sum3Lin
     _MODS.update(dict(tanh=C02Tanh, cube=C02Cube, lin=C02Lin, bilin=C02Bilin, twoout=C02TwoOut, sum=C02SumSq))
     return _MODS
 
@@ -292,7 +306,7 @@ def _check_case(case):
 
     for inode, nd in enumerate(case["nodes"]):
         kind, m = nd["kind"], nd["m"]
-        slc0 = None if kind == "sumlin" else nd["slc"][0]     # sumlin takes whole, preferably distinct, signals
+        slc0 = None if kind in ("sumlin", "sum3") else nd["slc"][0]   # sumlin/sum3 take whole signals
         idx0 = nd["in"][0] % len(sigs)                         # resolved once: the pool may grow while operands are taken
         r0, v0, J0, g0 = take_abs(idx0, slc0)
         if sigs[idx0].twoD:
@@ -316,6 +330,19 @@ def _check_case(case):
             o2 = new_sig(tag + "b", t, (1 - t ** 2)[:, None] * (Q @ J0))
             modules.append(M["twoout"](r0, [o1, o2], P, Q))
             labels.append("two_outputs")
+        elif kind == "sum3":
+            # the same signal on inputs 1 and 2, a different one of the same length (if there is one) on input 3
+            cand = [i for i, s in enumerate(sigs) if s.val.size == n0 and s is not g0 and not s.twoD]
+            if cand:
+                r2, v2, J2, g2 = take(cand[nd["in"][1] % len(cand)], None)
+                labels.append("repeated_input_plus_other")
+            else:
+                r2, v2, J2, g2 = take_abs(idx0, None)
+            A = rng.uniform(-1, 1, (m, n0))
+            modules.append(M["sum3"]([r0, r0, r2], new_sig(tag, A @ (2 * v0 + v2), A @ (2 * J0 + J2)), A))
+            g0.consumers += 1
+            labels.append("shared_adjoint_object")
+            labels.append("same_signal_twice")
         elif kind in ("bilin", "einsum_mul", "math_a", "math_b", "concat", "sumlin"):
             if kind in ("einsum_mul", "math_a", "math_b", "sumlin"):
                 # elementwise: second operand must have the same length; otherwise use the same operand twice
